@@ -27,6 +27,7 @@ def extraJson : Extra → Json
   | .none => Json.mkObj []
   | .optional b => Json.mkObj [("optional", b)]
   | .append b => Json.mkObj [("append", b)]
+  | .implicit => Json.mkObj [("optional", true), ("silent", true)]
 
 def actionJson (a : Action) : Json :=
   Json.mkObj [("cmd", ofStr a.cmd), ("args", ofStrs a.args), ("extra", extraJson a.extra)]
@@ -61,7 +62,19 @@ def handle : Handler := fun j => do
     pure (resBool (CondPinned.evalCond (← envOf j) (fuelFor text) text))
   | "table" =>
     let v ← variantOf j
-    match tableActions v (← jstrOpt j "pdir") (← envOf j) (← jstr j "text") with
+    -- optional "dflt": {"name": …, "version": null | …, "tag": null | …} = hooks.config.Eups.defaultProduct
+    let dflt : Option DefaultProduct ← match j.getObjVal? "dflt" with
+      | .ok (Json.obj _) => do
+        let d ← j.getObjVal? "dflt"
+        pure (some { name := ← jstr d "name", version := ← jstrOpt d "version", tag := ← jstrOpt d "tag" })
+      | _ => pure none
+    let pdir ← jstrOpt j "pdir"
+    let env ← envOf j
+    let text ← jstr j "text"
+    let res := match dflt with
+      | none => tableActions v pdir env text
+      | some d => tableActionsD v pdir (some d) env text
+    match res with
     | .ok as => pure (Json.mkObj [("out", "ok"), ("actions", Json.arr (as.map actionJson).toArray)])
     | .err e => pure (errJson e)
     | .fuel => pure (Json.mkObj [("out", "fuel")])
